@@ -127,17 +127,37 @@ func (ex *Exec) loopEnv(st *State, lp *Loop, phiVals map[*ssa.Phi]Term) *Env {
 	if lp.Con == nil {
 		return e
 	}
+	// first pass: binders are tied to variables by name
+	var unbound []Binder
+	byName := map[string]bool{}
+	for _, ob := range lp.Con.Binders {
+		byName[ob.Name] = true
+	}
+	var rangePhi *ssa.Phi
+	for _, in := range lp.Header.Instrs {
+		if phi, ok := in.(*ssa.Phi); ok && phi.Comment == "rangeindex" {
+			rangePhi = phi
+		}
+	}
+	rangeClaimed := false
 	for _, b := range lp.Con.Binders {
 		bound := false
 		if b.Type == "rangeindex" {
-			for _, in := range lp.Header.Instrs {
-				if phi, ok := in.(*ssa.Phi); ok && phi.Comment == "rangeindex" {
-					e.vars[b.Name] = BVal{Val: add(phiVals[phi], intLit(1))}
-					bound = true
+			if rangePhi != nil {
+				e.vars[b.Name] = BVal{Val: add(phiVals[rangePhi], intLit(1))}
+				rangeClaimed = true
+			} else {
+				// the loop is an index loop now: its counter plays the part of the range index
+				named := false
+				for _, in := range lp.Header.Instrs {
+					if phi, ok := in.(*ssa.Phi); ok && phi.Comment == b.Name && st.u().sortOf(phi.Type()) == SInt {
+						e.vars[b.Name] = BVal{Val: phiVals[phi]}
+						named = true
+					}
 				}
-			}
-			if !bound {
-				ex.abort("STALE-CONTRACT: loop %d has no range index", lp.N)
+				if !named {
+					unbound = append(unbound, b)
+				}
 			}
 			continue
 		}
@@ -179,27 +199,98 @@ func (ex *Exec) loopEnv(st *State, lp *Loop, phiVals map[*ssa.Phi]Term) *Env {
 				}
 			}
 		}
-		if !bound {
-			// the variable was renamed: if exactly one loop-carried variable of the binder's sort is claimed by no
-			// binder of the loop contract, it is the one
-			claimed := map[string]bool{}
-			for _, ob := range lp.Con.Binders {
-				claimed[ob.Name] = true
-			}
-			want := st.u().sortOf(ex.typeOfBinder(ex.con, b))
-			var cand []*ssa.Phi
-			for _, in := range lp.Header.Instrs {
-				if phi, ok := in.(*ssa.Phi); ok && phi.Comment != "rangeindex" && !claimed[phi.Comment] && st.u().sortOf(phi.Type()) == want {
-					cand = append(cand, phi)
+		if !bound && strings.HasPrefix(b.Type, "[]") {
+			// the slice a former range loop iterated over, now indexed by hand: the only slice of that type
+			// indexed inside the loop and defined before it
+			var found []ssa.Value
+			for _, blk := range ex.fn.Blocks {
+				if !lp.Blocks[blk] {
+					continue
+				}
+				for _, in := range blk.Instrs {
+					if ia, ok := in.(*ssa.IndexAddr); ok {
+						if _, isSlice := ia.X.Type().Underlying().(*types.Slice); !isSlice {
+							continue
+						}
+						if xi, ok := ia.X.(ssa.Instruction); ok && lp.Blocks[xi.Block()] {
+							continue
+						}
+						if t, ok := st.vals[ia.X]; ok && t.Sort == SSlice && types.Identical(ia.X.Type(), ex.typeOfBinder(ex.con, b)) {
+							dup := false
+							for _, f := range found {
+								if f == ia.X {
+									dup = true
+								}
+							}
+							if !dup {
+								found = append(found, ia.X)
+							}
+						}
+					}
 				}
 			}
-			if len(cand) == 1 {
-				e.vars[b.Name] = BVal{Val: phiVals[cand[0]]}
+			if len(found) == 1 {
+				e.vars[b.Name] = BVal{Val: st.vals[found[0]]}
 				bound = true
 			}
 		}
 		if !bound {
-			ex.abort("STALE-CONTRACT: loop %d binder %s matches no loop-carried variable", lp.N, b.Name)
+			unbound = append(unbound, b)
+		}
+	}
+	// second pass: the variables were renamed, or the loop changed between a range loop and an index loop.
+	// Binders left over are tied, sort by sort and in order of declaration, to the loop-carried variables no
+	// binder names; a wrong guess cannot make anything pass that should not (the invariants are still
+	// proved about whatever they are bound to), it can only leave the loop undecided.
+	if len(unbound) > 0 {
+		sortOfBinder := func(b Binder) Sort {
+			if b.Type == "rangeindex" {
+				return SInt
+			}
+			return st.u().sortOf(ex.typeOfBinder(ex.con, b))
+		}
+		type cand struct {
+			phi  *ssa.Phi
+			plus int64
+		}
+		cands := map[Sort][]cand{}
+		for _, in := range lp.Header.Instrs {
+			phi, ok := in.(*ssa.Phi)
+			if !ok {
+				continue
+			}
+			if phi.Comment == "rangeindex" {
+				if !rangeClaimed {
+					cands[SInt] = append(cands[SInt], cand{phi, 1})
+				}
+				continue
+			}
+			if !byName[phi.Comment] {
+				s := st.u().sortOf(phi.Type())
+				cands[s] = append(cands[s], cand{phi, 0})
+			}
+		}
+		want := map[Sort][]Binder{}
+		for _, b := range unbound {
+			s := sortOfBinder(b)
+			want[s] = append(want[s], b)
+		}
+		for s, bs := range want {
+			cs := cands[s]
+			if len(cs) != len(bs) {
+				b := bs[0]
+				if b.Type == "rangeindex" {
+					ex.abort("STALE-CONTRACT: loop %d has no range index", lp.N)
+				}
+				ex.abort("STALE-CONTRACT: loop %d binder %s matches no loop-carried variable", lp.N, b.Name)
+			}
+			for i, b := range bs {
+				v := phiVals[cs[i].phi]
+				if cs[i].plus != 0 {
+					v = add(v, intLit(cs[i].plus))
+				}
+				e.vars[b.Name] = BVal{Val: v}
+			}
 		}
 	}
 	return e
@@ -407,6 +498,10 @@ func (ex *Exec) havocLoop(st *State, lp *Loop) {
 					mark(f.Name, root)
 				}
 			case *ssa.Call:
+				if g := ex.inlinable(t); g != nil && g != ex.fn {
+					ex.inlinedMods(st, g, 1, mark)
+					continue
+				}
 				for _, f := range ex.callModFamilies(st, t) {
 					mark(f, nil)
 				}
@@ -714,7 +809,7 @@ func (ex *Exec) call(st *State, c *ssa.Call) {
 	}
 	// obligations of a call are named by the callee's name and its per-name ordinal (call:Parse#1), which
 	// unrelated edits of the function do not shift
-	tag := ex.nameAnchor[c]
+	tag := ex.anchorOf(st, c)
 	if tag == "" {
 		tag = fmt.Sprintf("call#%d:%s", ex.ordinal[c], con.Name)
 	}
